@@ -98,7 +98,8 @@ func (r *zzRefKV) best(q string, ct ComparisonType) int {
 // getCeiling / getLower / getHigher, RangeScan / KeyRangeScan / KeyRangeScanReverse, the write batch with
 // Put / Delete / DeleteRange / Get / FindLower / RangeScan / Commit) over the Pebble API model, with nk
 // symbolic 2-byte keys (any mix of '/', letters and other bytes) stored through one batch, a symbolic
-// query key and comparison type, and then a second batch that deletes one key or a symbolic range. Every
+// query key and comparison type, and then a second batch that deletes one key, a symbolic range, or (4) a
+// possibly absent key twice (blind delete). Every
 // answer must equal the answer of a linear scan of the reference under the slash-aware order: the adapter
 // must not mix byte order with key order anywhere.
 func ZZPebbleAdapter(nk, ct, second int) {
@@ -137,6 +138,13 @@ func ZZPebbleAdapter(nk, ct, second int) {
 	case 2:
 		vAssert("delete-range-ok", wb.DeleteRange(q, upper) == nil)
 		ref.delRange(q, upper)
+	case 4:
+		// WriteBatch.Delete is a BLIND delete (the contract the model KV of the upper-layer harnesses assumes and
+		// db.go / the secondary-index and session callbacks rely on): deleting a key that is not stored — or
+		// the same key twice in one batch — is not an error
+		vAssert("blind-delete-ok", wb.Delete(q) == nil)
+		vAssert("second-delete-of-the-same-key-in-one-batch-ok", wb.Delete(q) == nil)
+		ref.del(q)
 	case 3:
 		lk, err := wb.FindLower(q)
 		b := ref.best(q, ComparisonLower)
